@@ -239,4 +239,24 @@ theorem hamdist_spec (u v : Z) (hu : u.WF) (hv : v.WF) :
 example : mpz_hamdist ⟨true, [0, 0, 1]⟩ ⟨true, [0, 3]⟩ = 63 ∧ mpz_hamdist ⟨true, [5]⟩ ⟨false, [5]⟩ = 2 ^ 64 - 1 ∧
     mpz_hamdist ⟨false, [B - 1, 1]⟩ ⟨false, [0, 3, 1]⟩ = 66 := by decide
 
+/-! ## the well-formedness hypotheses cover every integer -/
+
+/-- `Z.ofInt` (what the driver feeds the models) represents every integer by a well-formed operand, so the
+    theorems above quantify over all of ℤ: e.g. the three binary operations on arbitrary integers. -/
+theorem bitops_on_all_integers (x y : Int) :
+    (Z.ofInt x).WF ∧ (Z.ofInt x).toInt = x ∧
+    (mpz_and (Z.ofInt x) (Z.ofInt y)).toInt = Int.land x y ∧
+    (mpz_ior (Z.ofInt x) (Z.ofInt y)).toInt = Int.lor x y ∧
+    (mpz_xor (Z.ofInt x) (Z.ofInt y)).toInt = Int.xor x y ∧
+    (mpz_com (Z.ofInt x)).toInt = -x - 1 := by
+  obtain ⟨ex, wx⟩ := ofInt_spec x
+  obtain ⟨ey, wy⟩ := ofInt_spec y
+  refine ⟨wx, ex, ?_, ?_, ?_, ?_⟩
+  · rw [(mpz_and_spec _ _ wx wy).1, ex, ey]
+  · rw [(mpz_ior_spec _ _ wx wy).1, ex, ey]
+  · rw [(mpz_xor_spec _ _ wx wy).1, ex, ey]
+  · rw [(mpz_com_spec _ wx).2.1, ex]
+example : Z.ofInt (-(2 ^ 64)) = ⟨true, [0, 1]⟩ := by
+  unfold Z.ofInt; rw [natLimbs, dif_neg (by decide), natLimbs, dif_neg (by decide), natLimbs]; decide
+
 end Mpir.Bits
